@@ -439,6 +439,62 @@ struct event_test {
     }
   }
 
+  // tight race: 2-4 waiters are queued first (so their order in the waiter list is known), then one thread cancels a
+  // chosen waiter (the oldest half of the time) while another calls set(), released together with 0-400 ns of jitter.
+  // Every waiter completes exactly once: the cancelled one with done or value, the others with value.
+  long tight_rounds = 0, tight_cancel_won = 0, tight_set_won = 0;
+  void tight_round(rng& r) {
+    if constexpr (Cancellable) {
+      Event evt;
+      int W = 2 + (int)r.below(3);
+      std::vector<std::unique_ptr<waiter>> ws;
+      for (int i = 0; i < W; ++i) {
+        ws.push_back(std::make_unique<waiter>());
+        waiter& w = *ws.back();
+        w.st.what = "v2 async_wait (queued before a cancel/set race)";
+        w.op.construct_with([&] { return unifex::connect(evt.async_wait(), rcvr<sched_t>{&w.st, ctx.get_scheduler()}); });
+        unifex::start(w.op.get());
+      }
+      int victim = r.chance(1, 2) ? 0 : (int)r.below((uint32_t)W);
+      ws[victim]->will_stop = true;
+      std::atomic<int> ready{0};
+      uint64_t j1 = r.below(400), j2 = r.below(400);
+      std::thread tc([&] {
+        ready.fetch_add(1);
+        while (ready.load() < 2) {
+        }
+        spin_ns(j1);
+        ws[victim]->st.src.request_stop();
+      });
+      std::thread tsx([&] {
+        ready.fetch_add(1);
+        while (ready.load() < 2) {
+        }
+        spin_ns(j2);
+        evt.set();
+      });
+      tc.join();
+      tsx.join();
+      for (auto& w : ws)
+        if (!w->st.wait("C16:event:waiter-stranded-after-set", 30.0)) {
+          report();
+          _exit(0);
+        }
+      for (int i = 0; i < W; ++i) {
+        int res = ws[i]->st.result.load(std::memory_order_acquire);
+        if (res == R_DONE && i != victim)
+          violation("C16:event:done-without-stop", "%s completed with done without a stop request", ws[i]->st.what);
+        if (res != R_DONE && res != R_VALUE)
+          violation("C16:event:unexpected-error", "%s completed with error", ws[i]->st.what);
+        if (i == victim)
+          (res == R_DONE ? tight_cancel_won : tight_set_won)++;
+        ++waits;
+        ws[i]->op.destruct();
+      }
+      ++tight_rounds;
+    }
+  }
+
   void drain() {
     std::atomic<bool> got{false};
     auto op = unifex::connect(unifex::schedule(ctx.get_scheduler()), probe{this, &got});
@@ -450,8 +506,11 @@ struct event_test {
   void run(long iters, uint64_t seed, int maxW, int maxS) {
     drain();
     rng r(seed);
-    for (long i = 0; i < iters; ++i)
+    for (long i = 0; i < iters; ++i) {
       round(r, 1 + r.below(maxW), 1 + r.below(maxS));
+      for (int k = 0; k < 20; ++k)
+        tight_round(r);
+    }
     const char* v = Cancellable ? "event_v2" : "event_v1";
     char k[128];
 #define ST(name, val) \
@@ -466,6 +525,11 @@ struct event_test {
     ST("value_completions_on_scheduler_thread", hop_ok);
     ST("rounds_without_set", no_set_rounds);
     ST("rounds_with_concurrent_reset", reset_rounds);
+    if (Cancellable) {
+      ST("tight_cancel_vs_set_rounds", tight_rounds);
+      ST("tight_cancel_won", tight_cancel_won);
+      ST("tight_set_won", tight_set_won);
+    }
 #undef ST
   }
 };
